@@ -148,8 +148,10 @@ PROPS = {
     'C18': P('other',
              'Proved: BDD.succ returns the stored fork; dd.autoref.BDD.succ, Function.low/high/var/level/negated/ref return what the node '
              'table stores, and expanding on the node\'s variable with high/low and applying the sign reproduces u for an arbitrary '
-             'assignment (W9 read back), with the handles counted. descendants, sizes, to_nx and DOT exports are checked by run-time '
-             'contracts (graph exports parsed back and evaluated).',
+             'assignment (W9 read back), with the handles counted. BDD.descendants / _descendants return exactly the stored nodes '
+             'reachable from the roots plus the terminal (pointwise in an arbitrary node RT, ghost family REACH; the inductive reading '
+             'is lemma L-REACH). Sizes (len, dag_size), to_nx and DOT exports are checked by run-time contracts (graph exports parsed '
+             'back and evaluated).',
              bounded=['vlib.rtc.c18'], design_ref='DESIGN.md 7/C18'),
     'C19': P('other',
              'The C extensions cannot be built here (no CUDD/Sylvan/BuDDy). The .pyx sources are parsed on every run with Cython\'s own '
